@@ -46,7 +46,7 @@ func goEnv() []string {
 }
 
 func ensureRT() (string, error) {
-	out := filepath.Join(verifDir, "build", "rt")
+	out := filepath.Join(buildDir, "rt")
 	cmd := exec.Command("python3", filepath.Join(verifDir, "rt", "mkpatch.py"), goRoot, out)
 	b, err := cmd.CombinedOutput()
 	if err != nil {
@@ -66,7 +66,7 @@ func writeIfChanged(path string, data []byte) error {
 }
 
 func ensureModfile() (string, error) {
-	dir := filepath.Join(verifDir, "build")
+	dir := buildDir
 	mod, err := os.ReadFile(filepath.Join(repoDir, "go.mod"))
 	if err != nil {
 		return "", err
@@ -208,7 +208,7 @@ func buildOverlay(w *World) (string, string, error) {
 			}
 		}
 	}
-	wdir := filepath.Join(verifDir, "build", w.Name)
+	wdir := filepath.Join(buildDir, w.Name)
 	files := append([]string{}, allRewrite...)
 	files = append(files, w.Rewrite...)
 	for _, rel := range files {
@@ -260,7 +260,7 @@ func buildWorld(w *World) (string, error) {
 	if err != nil {
 		return "", err
 	}
-	bin := filepath.Join(verifDir, "build", w.Name, "worker.test")
+	bin := filepath.Join(buildDir, w.Name, "worker.test")
 	cmd := exec.Command(goBin, "test", "-c", "-vet=off", "-overlay", ov, "-modfile", mf, "-o", bin, w.Pkg)
 	cmd.Dir = repoDir
 	cmd.Env = goEnv()
